@@ -935,9 +935,18 @@ impl<'a> PGen<'a> {
                 let (off, len) = if wild { (self.wild_len(300), self.wild_len(300)) } else { (self.g.below(8), self.g.below(100)) };
                 self.load_const(C, off);
                 self.load_const(D, len);
-                if wild && self.g.below(3) == 0 {
+                if wild && self.g.bool() {
                     // destination the frame does not (fully) own: the zero-filled tail counts too
-                    self.foreign_addr(A);
+                    if self.g.bool() {
+                        self.foreign_addr(A);
+                    } else {
+                        // starts in the last bytes of the own heap buffer and runs 24..120 bytes
+                        // past its end (in a callee: into the caller's heap), reading from an
+                        // offset around the end of the blob so that most of it is zero fill
+                        emit!(self, ri12(O::ADDI, A, HEAP, HEAP_BUF - 8 * (1 + self.g.below(3) as u32)));
+                        let l = 32 + 8 * self.g.below(12);
+                        self.load_const(D, l);
+                    }
                     emit!(self, r4(O::BLDD, A, B, C, D));
                 } else {
                     emit!(self, r4(O::BLDD, HEAP, B, C, D));
